@@ -410,6 +410,12 @@ def run(ctx):
                                     'initial': initial, 'attrs': [list(a) for a in attrs]}
     family += [[delb, addb(None, ('null', 'true'))], [delb, addb('5')],
                [delb, add_int('Alpha', 'q'), addb(None, ('null', 'true'))]]
+    # ... and two different Meta properties of one model changed in one batch (each keeps its own last value)
+    cm = lambda prop, value: {'t': 'ChangeMeta', 'model': 'Alpha', 'prop': prop, 'py_value': value}
+    ut, ut0 = cm('unique_together', [('a', 'b')]), cm('unique_together', [])
+    ix, ix0 = cm('indexes', [{'name': 'alpha_a_ix', 'fields': ['a']}]), cm('indexes', [])
+    family += [[ut, ix], [ix, ut], [ut, ix, ut0], [ix, ut, ix0], [ut, add_int('Alpha', 'q'), ix],
+               [ix, ix0, ut], [ut, ut0, ix]]
     seqs = family + seqs
     copies = bool(ctx.variant.get('optimizer_copies'))
     reqs = [{'op': 'optimize', 'existing': existing, 'copies': copies,
